@@ -10,6 +10,7 @@
   hull of its outline lines, and transparent styles draw nothing.
 -/
 import EG.Lemmas.JoinsBox
+import EG.Lemmas.JoinsTransparent
 import EG.Model.ThickPolyline
 import EG.Model.ThickTriangle
 namespace EG.C02.Joins
@@ -75,8 +76,15 @@ theorem triangle_transparent_draws_nothing (t : Tri) (style : TriStyle)
 
 example : (⟨none, some 1, 0, .center⟩ : TriStyle).isTransparent = true := by decide
 
+/-- ... and `pixels()` yields nothing (the scanline iterator is walked, every scanline skipped). -/
+theorem triangle_transparent_no_pixels (t : Tri) (style : TriStyle)
+    (h : style.isTransparent = true) (ps : List (Pt × Nat)) (hps : triPixels t style = some ps) :
+    ps = [] :=
+  triPixels_transparent t style h ps hps
+
+example : triPixels ⟨⟨0, 0⟩, ⟨4, 1⟩, ⟨2, 5⟩⟩ ⟨none, some 1, 0, .center⟩ = some [] := by decide
+
 -- [V] every pixel of a stroked polyline (width >= 2) lies inside bounding_box(): the fold of the segment boxes also has to cover the cap and bevel filler lines, which reach to corners of the NEIGHBOURING segment ("other segments expand the box" in the source comment): carried by correspondence + oracle only
 -- [V] every pixel of a stroked triangle (any alignment; Inside: the plain vertex box) lies inside bounding_box(): carried by correspondence + oracle only
--- [V] pixels() of a triangle with a transparent style is empty (the scanline iterator is still run): carried by correspondence + oracle only
 
 end EG.C02.Joins
